@@ -113,7 +113,9 @@ def runErrvis (c : Case) : Res :=
     let badAgg := exp.filterMap (fun l =>
       let key := l[1]?.getD "?"
       match num l, (got.find? (fun m => m[1]? == some key)).bind num with
-      | some e, some g => if close e g then none else some s!"aggregate {key}: {Acb.ratToString g} shown, the securities that completed add up to {Acb.ratToString e}"
+      | some e, some g => if close e g then none
+          else if key.startsWith "foot" then some s!"security {(key.drop 4).toString}: the table's footer shows a total gain of {Acb.ratToString g}, the security's own rows add up to {Acb.ratToString e} (0 for a rejected security)"
+          else some s!"aggregate {key}: {Acb.ratToString g} shown, the securities that completed add up to {Acb.ratToString e}"
       | some e, none => if close e 0 then none else some s!"aggregate {key}: missing, expected {Acb.ratToString e}"
       | none, _ => some s!"aggregate {key}: unparsable")
     let extraAgg := got.filterMap (fun l =>
